@@ -42,6 +42,7 @@ type Block struct {
 	ExtraStrings    []string // unused string table entries
 	UnknownFields   bool     // sprinkle unknown (skippable) fields
 	IndexData       bool     // BlobHeader.indexdata present
+	PadBytes        int      // an unknown (skippable) bytes field of this size pads the PrimitiveBlock
 }
 
 // Group kinds.
